@@ -1,6 +1,7 @@
 package props
 
 import (
+	"bytes"
 	"fmt"
 
 	"verif/core"
@@ -24,6 +25,11 @@ type C17Case struct {
 	// its copy. The dictionary survives a Flush; should a writer reset it there (legal), the redundancy
 	// is no longer inside the window and the case is not judged.
 	Flush bool `json:",omitempty"`
+	// Pre (X‖X only): a run of PreLen bytes of value PreByte is written before X (in a Write call of
+	// its own): the match finder's structures are no longer in their initial shape when X arrives.
+	// The bound grows by PreLen (the run itself may cost up to its own length).
+	PreByte int `json:",omitempty"`
+	PreLen  int `json:",omitempty"`
 }
 
 func init() {
@@ -43,7 +49,7 @@ func c17Case(r *core.Run, p C17Case) {
 		data = buildShape([]Seg{{K: "A", B: byte(p.Byte), N: p.N}})
 	case "xx":
 		x := randBytes(p.Seed, p.N)
-		data = append(append([]byte(nil), x...), x...)
+		data = append(append(bytes.Repeat([]byte{byte(p.PreByte)}, p.PreLen), x...), x...)
 	case "random":
 		data = randBytes(p.Seed+100, p.N)
 	}
@@ -58,12 +64,18 @@ func c17Case(r *core.Run, p C17Case) {
 			for n := 0; p.Frag > 0 && n+p.Frag < len(data); n += p.Frag {
 				parts = append(parts, p.Frag)
 			}
+			if p.PreLen > 0 {
+				parts = []int{p.PreLen}
+			}
 			outLen = len(mustLibXZ(cfg, data, parts...))
 		} else {
 			cfg := L2Cfg{Props: true, LC: p.Props[0], LP: p.Props[1], PB: p.Props[2], DictCap: p.DictCap, BufSize: p.BufSize, Matcher: p.Matcher}
 			var steps []L2Step
 			for n := 0; p.Frag > 0 && n+p.Frag < len(data); n += p.Frag {
 				steps = append(steps, L2Step{"w", p.Frag})
+			}
+			if p.PreLen > 0 {
+				steps = []L2Step{{"w", p.PreLen}}
 			}
 			if p.Flush {
 				k := 8
@@ -99,7 +111,7 @@ func c17Case(r *core.Run, p C17Case) {
 	case "run":
 		bound = n/500 + allow
 	case "xx":
-		bound = p.N*115/100 + allow
+		bound = p.N*115/100 + allow + p.PreLen
 	case "random":
 		bound = n + n/500 + allow
 	}
@@ -114,7 +126,7 @@ func c17Case(r *core.Run, p C17Case) {
 
 func runC17(r *core.Run) {
 	th := thorough(r)
-	r.Rule = "finite grid, enumerated completely: runs of every byte value 0..255 x lengths x both matchers; X‖X for fixed generator seeds x |X| x matchers x DictCap (|X| <= DictCap); incompressible data seeds x lengths incl. 64 KiB / 2 MiB chunk limits x DictCap>=64KiB x BufSize x lc/lp/pb corners, xz and raw LZMA2; a sub-grid with the input handed over in Write calls of 250 / 700 / 4096 bytes; oracle = the three numeric bounds of the statement with the 128 B/stream + 64 B/block allowance. non-trivial = distinct (family, matcher, size, dictionary, ratio bucket)"
+	r.Rule = "finite grid, enumerated completely: runs of every byte value 0..255 x lengths x both matchers; X‖X for fixed generator seeds x |X| x matchers x DictCap (|X| <= DictCap), also behind a run of 200 / 3000 equal bytes (00, 61, 80, FF) written by an earlier Write; incompressible data seeds x lengths incl. 64 KiB / 2 MiB chunk limits x DictCap>=64KiB x BufSize x lc/lp/pb corners, xz and raw LZMA2; a sub-grid with the input handed over in Write calls of 250 / 700 / 4096 bytes; oracle = the three numeric bounds of the statement with the 128 B/stream + 64 B/block allowance. non-trivial = distinct (family, matcher, size, dictionary, ratio bucket)"
 	var cases []C17Case
 	def := [3]int{3, 0, 2}
 	// runs
@@ -157,6 +169,20 @@ func runC17(r *core.Run) {
 						api = "lzma2"
 					}
 					cases = append(cases, C17Case{Family: "xx", API: api, Seed: s, N: n, DictCap: dc, Matcher: m, Props: def})
+				}
+			}
+		}
+	}
+	// X‖X behind a run of equal bytes written earlier on the same writer
+	for _, pb := range []int{0x00, 0x61, 0x80, 0xFF} {
+		for _, pl := range []int{200, 3000} {
+			for si, n := range []int{2000, 12288, 30000} {
+				for m := 0; m < 2; m++ {
+					api := "xz"
+					if (si+m)%2 == 1 {
+						api = "lzma2"
+					}
+					cases = append(cases, C17Case{Family: "xx", API: api, Seed: 40 + si, N: n, DictCap: 1 << 16, Matcher: m, Props: def, PreByte: pb, PreLen: pl})
 				}
 			}
 		}
